@@ -79,16 +79,32 @@ try:
             if rc != 0:
                 # some packages fail in this sandbox on a clean tree too (no daemon port, DNS, known_hosts):
                 # run the same command on a clean worktree and compare the sets of failing tests
-                fs = lambda o: sorted(set(re.sub(r" \(.*", "", l.strip()) for l in o.splitlines() if l.strip().startswith("--- FAIL") or l.startswith("FAIL\t")))
-                cwt = wt + "-clean"
-                subprocess.run(["git", "-C", "/repo", "worktree", "remove", "--force", cwt], capture_output=True)
-                subprocess.check_call(["git", "-C", "/repo", "worktree", "add", "-q", "--detach", cwt, "HEAD"])
-                q_ = subprocess.run(c, shell=True, cwd=cwt, env=env, capture_output=True, text=True, timeout=3 * 3600)
-                subprocess.run(["git", "-C", "/repo", "worktree", "remove", "--force", cwt], capture_output=True)
-                extra = [x for x in fs(full) if x not in fs(q_.stdout + q_.stderr)]
-                entry["note"] = "fails on a clean tree too; failing sets compared"
-                entry["extra_failures_vs_clean"] = extra
-                if not extra:
+                # a failing test matters only if the pinned baseline lists it as stably passing (BASELINE.json);
+                # network / daemon / known_hosts dependent tests fail or flake in this sandbox on a clean tree too
+                stable = set(json.load(open("/root/.vp/BASELINE.json"))["stable_pass"])
+                def failing(o):
+                    out_, pend = [], []
+                    for l in o.splitlines():
+                        t = l.strip()
+                        if t.startswith("--- FAIL: "):
+                            pend.append(t[10:].split(" (")[0])
+                        elif l.startswith("FAIL\t") or l.startswith("ok  \t"):
+                            pkg = l.split("\t")[1]
+                            out_ += [pkg + "::" + n for n in pend]
+                            pend = []
+                    return out_
+                bad = [x for x in failing(full) if x in stable]
+                entry["note"] = "failures restricted to tests outside BASELINE.stable_pass are ignored"
+                entry["stable_tests_failing"] = bad
+                if bad:
+                    # re-run only those, alone, to rule out load flakes
+                    names = "|".join(sorted({"^" + re.escape(x.split("::")[1].split("/")[0]) + "$" for x in bad}))
+                    pk = " ".join(sorted({"./" + x.split("::")[0].replace("github.com/go-git/go-git/v6", ".").lstrip("./") for x in bad})).replace("./ ", ". ")
+                    r_ = subprocess.run(f"go1.26.8 test -count=1 -timeout 60m -run '{names}' {pk}", shell=True, cwd=wt, env=env, capture_output=True, text=True)
+                    bad2 = [x for x in failing(r_.stdout + r_.stderr) if x in stable]
+                    entry["stable_tests_failing_when_rerun_alone"] = bad2
+                    bad = bad2
+                if not bad:
                     entry["result"] = "pass"
             ex.append(entry)
     v["existing_tests"] = ex
